@@ -48,7 +48,9 @@ def run_case(case, backend="main"):
             # even-numbered classes derive from the class below them: delivery and waiting go by the EXACT class
             base = cls_of(k - 1) if (k % 2 == 0 and k >= 2) else AbstractSignal
             # ... and carry the SAME __name__ as that class (two distinct classes, one name)
-            classes[k] = type("Sig%d" % (k - 1 if (k % 2 == 0 and k >= 2) else k), (base,), {})
+            # ... every class k with k % 3 == 0 is FALSY (a signal carrying an empty batch: __len__() == 0)
+            body = {"__len__": (lambda self: 0)} if k % 3 == 0 else {}
+            classes[k] = type("Sig%d" % (k - 1 if (k % 2 == 0 and k >= 2) else k), (base,), body)
         return classes[k]
 
     srcs = {}
@@ -284,6 +286,11 @@ def run_case(case, backend="main"):
             except Exception:
                 log.append([5, hid, sid, [2]]); raise
             log.append([5, hid, sid, []])
+        # every third handler is a callable WITHOUT __name__ / __qualname__ (functools.partial, like an application that binds
+        # arguments): the loop must treat any callable alike
+        if hid % 3 == 2:
+            import functools
+            h = functools.partial(h)
         hcache[hid] = h
         return h
 
